@@ -46,6 +46,7 @@ package fsm
 //@   requires dst != nil
 //@   ensures [C12.euk.form] err == nil ==> encodedAt(dst.sdata, old(dst.slen), 1, keyBytes) && dst.slen == old(dst.slen) + 5 + len(keyBytes)
 //@   ensures [C12.euk.keep] forall i int :: 0 <= i && i < old(dst.slen) ==> dst.sdata[i] == old(dst.sdata[i])
+//@   ensures [C12.euk.val]  err == nil && old(dst.slen) == 0 ==> seqBytes(dst.sdata, 0, dst.slen) == encK(1, bytesOf(keyBytes))
 //@   modifies dst.sdata, dst.slen
 
 //@ func mustEncodeKey
@@ -62,3 +63,159 @@ package fsm
 //@   ensures [C12.bounds.high]  err == nil && !isWildcard(high) ==> isEnc(opts.UpperBound, 1, high)
 //@   ensures [C12.bounds.wild]  err == nil && isWildcard(high) ==> isW(opts.UpperBound)
 //@   modifies nothing
+
+// ---------------------------------------------------------------- apply context (C01, C03)
+
+// the stored form of a key as a byte-string value: enc_t(k) = [1,0,0,0][t] ++ k (definitional axioms)
+//@ uninterp func encK(t Int, k Bytes) Bytes
+//@ axiom forall t Int, k Bytes :: blen(encK(t, k)) == 5 + blen(k)
+//@ axiom forall t Int, k Bytes, i Int :: 0 <= i && i < 5 + blen(k) ==> bat(encK(t, k), i) == (i == 0 ? 1 : (i < 4 ? 0 : (i == 4 ? t : bat(k, i - 5))))
+//@ axiom forall t Int, k Bytes :: bat(encK(t, k), 4) == t
+// the bookkeeping entries of a view are untouched between two states
+//@ pure func bookSame(p1 map[Bytes]Bool, v1 map[Bytes]Bytes, p0 map[Bytes]Bool, v0 map[Bytes]Bytes) bool = p1[IDX()] == p0[IDX()] && v1[IDX()] == v0[IDX()] && p1[LIDX()] == p0[LIDX()] && v1[LIDX()] == v0[LIDX()]
+
+// EnsureIndexed: the batch may be replaced by an indexed one showing the same content.
+//@ func (*updateContext).EnsureIndexed
+//@   results err
+//@   requires c != nil && c.batch != nil && c.db != nil && c.batch.bdb == c.db
+//@   ensures [C01.idx.keep] err == nil ==> c.batch != nil && c.batch.isIndexed && c.batch.vP == old(c.batch.vP) && c.batch.vV == old(c.batch.vV) && c.batch.bdb == c.db
+//@   ensures err != nil ==> c.batch == old(c.batch)
+//@   ensures c.batch == old(c.batch) || fresh(c.batch)
+//@   modifies c.batch
+
+// ---------------------------------------------------------------- reads (C01, C09)
+
+// singleLookup: the model's answer for a single-key read: present <=> one pair; count-only drops the
+// pair, keys-only drops the value; never "more".
+//@ func singleLookup
+//@   results resp, err
+//@   requires reader != nil && req != nil
+//@   ensures [C01.single.absent]  err == nil && !reader.vP[encK(1, bytesOf(req.Key))] ==> resp != nil && len(resp.Kvs) == 0 && resp.Count == 0 && !resp.More
+//@   ensures [C01.single.count]   err == nil && reader.vP[encK(1, bytesOf(req.Key))] ==> resp != nil && resp.Count == 1 && !resp.More && (req.CountOnly ==> len(resp.Kvs) == 0)
+//@   ensures [C01.single.pair]    err == nil && reader.vP[encK(1, bytesOf(req.Key))] && !req.CountOnly ==> len(resp.Kvs) == 1 && resp.Kvs[0] != nil && bytesOf(resp.Kvs[0].Key) == bytesOf(req.Key)
+//@   ensures [C01.single.value]   err == nil && reader.vP[encK(1, bytesOf(req.Key))] && !req.CountOnly && !req.KeysOnly ==> bytesOf(resp.Kvs[0].Value) == reader.vV[encK(1, bytesOf(req.Key))]
+//@   ensures [C01.single.keyonly] err == nil && reader.vP[encK(1, bytesOf(req.Key))] && !req.CountOnly && req.KeysOnly ==> len(resp.Kvs[0].Value) == 0
+//@   ensures [C01.single.fresh]   err == nil ==> fresh(resp)
+//@   modifies nothing
+
+// ---------------------------------------------------------------- write handlers (C01)
+
+// handlePut: the batch's content afterwards is the sorted-map update [enc(key) := value]; the
+// previous pair is reported iff requested and present (read through the batch, so earlier commands
+// of the same apply call are visible).
+//@ func handlePut
+//@   results resp, err
+//@   requires ctx != nil && put != nil && ctx.batch != nil && ctx.db != nil && ctx.batch.bdb == ctx.db
+//@   ensures [C01.put.present] err == nil ==> ctx.batch != nil && ctx.batch.bdb == ctx.db && forall k Bytes :: ctx.batch.vP[k] == (k == encK(1, bytesOf(put.Key)) ? true : old(ctx.batch.vP[k]))
+//@   ensures [C01.put.value]   err == nil ==> forall k Bytes :: ctx.batch.vV[k] == (k == encK(1, bytesOf(put.Key)) ? bytesOf(put.Value) : old(ctx.batch.vV[k]))
+//@   ensures [C01.put.prev]    err == nil && put.PrevKv && old(ctx.batch.vP[encK(1, bytesOf(put.Key))]) ==> resp != nil && resp.PrevKv != nil && bytesOf(resp.PrevKv.Key) == bytesOf(put.Key) && bytesOf(resp.PrevKv.Value) == old(ctx.batch.vV[encK(1, bytesOf(put.Key))])
+//@   ensures [C01.put.noprev]  err == nil && !(put.PrevKv && old(ctx.batch.vP[encK(1, bytesOf(put.Key))])) ==> resp != nil && resp.PrevKv == nil
+//@   ensures [C01.put.book]    err == nil ==> bookSame(ctx.batch.vP, ctx.batch.vV, old(ctx.batch.vP), old(ctx.batch.vV))
+//@   ensures [C01.put.keepidx] ctx.index == old(ctx.index) && ctx.leaderIndex == old(ctx.leaderIndex) && ctx.db == old(ctx.db)
+//@   ensures (ctx.batch == old(ctx.batch) || fresh(ctx.batch)) && (old(ctx.batch != ctx.db) ==> ctx.batch != ctx.db)
+//@   modifies ctx.batch, ctx.batch.vP, ctx.batch.vV
+
+// bookkeeping keys: IDX = enc_2("index"), LIDX = enc_2("leader_index")
+//@ uninterp func IDX() Bytes
+//@ axiom IDX() == encK(2, bytesOf("index"))
+//@ uninterp func LIDX() Bytes
+//@ axiom LIDX() == encK(2, bytesOf("leader_index"))
+//@ axiom blen(IDX()) == 10 && blen(LIDX()) == 17
+//@ initfact sysLocalIndex : bytesOf(sysLocalIndex) == IDX()
+//@ initfact sysLeaderIndex : bytesOf(sysLeaderIndex) == LIDX()
+
+// Commit: the applied index (always) and the leader index (when the context carries one) are written
+// into the SAME batch as the data, and the batch is committed exactly once: afterwards the DB shows
+// exactly the batch content plus the two bookkeeping keys.
+//@ func (*updateContext).Commit
+//@   results err
+//@   requires c != nil && c.batch != nil && c.db != nil && c.batch.bdb == c.db && c.batch != c.db
+//@   ensures [C01.commit.keys] err == nil ==> forall k Bytes :: c.db.vP[k] == (k == IDX() || (k == LIDX() && c.leaderIndex != nil) ? true : old(c.batch.vP[k]))
+//@   ensures [C01.commit.vals] err == nil ==> forall k Bytes :: c.db.vV[k] == (k == IDX() ? le64(c.index) : (k == LIDX() && c.leaderIndex != nil ? le64(*c.leaderIndex) : old(c.batch.vV[k])))
+//@   ensures [C04.commit.atomic] err != nil ==> c.db.vP == old(c.db.vP) && c.db.vV == old(c.db.vV)
+//@   modifies c.batch.vP, c.batch.vV, c.db.vP, c.db.vV
+
+// parseCommand (contract taken from the property): the context's index is the entry's own index; the
+// leader index carried by the context is the one of the LAST entry that had one - an entry without a
+// leader index leaves it unchanged, so what gets persisted does not depend on batching.
+//@ func parseCommand
+//@   results cmd, err
+//@   requires c != nil
+//@   ensures [C03.index] c.index == entry.Index
+//@   ensures [C03.lidx.set]  err == nil && hasLI(entry.Cmd) ==> c.leaderIndex != nil && *c.leaderIndex == liVal(entry.Cmd)
+//@   ensures [C03.lidx.keep] err == nil && !hasLI(entry.Cmd) ==> c.leaderIndex == old(c.leaderIndex)
+//@   ensures [C03.cmd] err == nil ==> cmd != nil && typeIs(cmd, commandPut) == (cmdKind(entry.Cmd) == 0) && typeIs(cmd, commandDelete) == (cmdKind(entry.Cmd) == 1) && typeIs(cmd, commandTxn) == (cmdKind(entry.Cmd) == 5)
+//@   ensures c.batch == old(c.batch) && c.db == old(c.db)
+//@   modifies c.index, c.leaderIndex
+
+//@ func wrapCommand
+//@   requires cmd != nil && 0 <= cmd.Type && cmd.Type <= 6
+//@   ensures result != nil && typeIs(result, commandPut) == (cmd.Type == 0) && typeIs(result, commandDelete) == (cmd.Type == 1) && typeIs(result, commandTxn) == (cmd.Type == 5)
+//@   modifies nothing
+
+// ---------------------------------------------------------------- FSM.Update (C01, C03, C10, C11)
+
+// every command kind: the result carries the entry's own index as revision; the batch stays a batch
+// over the same DB; bookkeeping of the context is not touched by handlers.
+//@ iface fsm.command.handle
+//@   params c, ctx
+//@   results ur, res, err
+//@   requires ctx != nil && ctx.batch != nil && ctx.db != nil && ctx.batch.bdb == ctx.db && ctx.batch != ctx.db
+//@   ensures [C10.handle.rev] err == nil ==> res != nil && res.Revision == ctx.index
+//@   ensures [C10.handle.resp] err == nil && (typeIs(c, commandPut) || typeIs(c, commandDelete)) ==> len(res.Responses) == 1
+//@   ensures [C10.handle.fresh] err == nil ==> fresh(res)
+//@   ensures [C01.handle.book] err == nil ==> bookSame(ctx.batch.vP, ctx.batch.vV, old(ctx.batch.vP), old(ctx.batch.vV))
+//@   ensures err == nil ==> ctx.batch != nil && ctx.batch.bdb == ctx.db && ctx.batch != ctx.db
+//@   ensures ctx.index == old(ctx.index) && ctx.leaderIndex == old(ctx.leaderIndex) && ctx.db == old(ctx.db)
+//@   ensures ctx.batch == old(ctx.batch) || fresh(ctx.batch)
+//@   modifies ctx.batch, ctx.batch.vP, ctx.batch.vV
+
+// the listener installed by the table manager: ghost call log on the function value
+//@ ghostfield any.calls Int
+//@ ghostfield any.lastArg uint64
+//@ func appliedFuncContract
+//@   assumed
+//@   params idx
+//@   ensures self.calls == old(self.calls) + 1 && self.lastArg == idx
+//@   modifies self.calls, self.lastArg
+
+// Update (dragonboat calls it single-threaded with a non-empty slice of entries).
+//@ func (*FSM).Update
+//@   results out, err
+//@   functype FSM.appliedFunc appliedFuncContract
+//@   requires p != nil && p.pebble.v != 0 && p.metrics != nil && p.appliedFunc != nil && len(updates) > 0
+//@   ensures [C10.rev]      err == nil ==> forall j int :: 0 <= j && j < len(updates) ==> (ackKind(updates[j].Cmd) ==> revOf(updates[j].Result.Data) == updates[j].Index)
+//@   ensures [C03.idx]      err == nil ==> p.pebble.v.vP[IDX()] && p.pebble.v.vV[IDX()] == le64(updates[len(updates)-1].Index)
+//@   ensures [C03.lidx.none] err == nil && (forall j int :: 0 <= j && j < len(updates) ==> !hasLI(updates[j].Cmd)) ==> p.pebble.v.vP[LIDX()] == old(p.pebble.v.vP[LIDX()]) && p.pebble.v.vV[LIDX()] == old(p.pebble.v.vV[LIDX()]) && p.appliedFunc.lastArg == updates[len(updates)-1].Index
+//@   ensures [C03.lidx.last] err == nil ==> forall j int :: 0 <= j && j < len(updates) && hasLI(updates[j].Cmd) && (forall k int :: j < k && k < len(updates) ==> !hasLI(updates[k].Cmd)) ==> p.pebble.v.vP[LIDX()] && p.pebble.v.vV[LIDX()] == le64(liVal(updates[j].Cmd)) && p.appliedFunc.lastArg == liVal(updates[j].Cmd)
+//@   ensures [C11.notify]   err == nil ==> p.appliedFunc.calls == old(p.appliedFunc.calls) + 1
+//@   ensures [C02.atomic]   err != nil ==> p.pebble.v.vP == old(p.pebble.v.vP) && p.pebble.v.vV == old(p.pebble.v.vV) && p.appliedFunc.calls == old(p.appliedFunc.calls)
+//@   modifies elems(updates), p.pebble.v.vP, p.pebble.v.vV, p.appliedFunc.calls, p.appliedFunc.lastArg
+//@   loop 0 invariant 0 <= i && i <= len(updates) && ctx != nil && ctx.batch != nil && ctx.db == p.pebble.v && ctx.batch.bdb == ctx.db && ctx.batch != ctx.db && fresh(ctx) && fresh(ctx.batch)
+//@   loop 0 invariant p.pebble.v.vP == old(p.pebble.v.vP) && p.pebble.v.vV == old(p.pebble.v.vV) && p.appliedFunc.calls == old(p.appliedFunc.calls)
+//@   loop 0 invariant i > 0 ==> ctx.index == updates[i-1].Index && idx == updates[i-1].Index
+//@   loop 0 invariant [C01.book] bookSame(ctx.batch.vP, ctx.batch.vV, p.pebble.v.vP, p.pebble.v.vV)
+//@   loop 0 invariant forall j int :: 0 <= j && j < len(updates) ==> updates[j].Index == old(updates[j].Index) && updates[j].Cmd == old(updates[j].Cmd)
+//@   loop 0 invariant [C10.rev]  forall j int :: 0 <= j && j < i ==> (ackKind(updates[j].Cmd) ==> revOf(updates[j].Result.Data) == updates[j].Index)
+//@   loop 0 invariant [C03.none] (ctx.leaderIndex == nil) == (forall j int :: 0 <= j && j < i ==> !hasLI(updates[j].Cmd))
+//@   loop 0 invariant [C03.last] forall j int :: 0 <= j && j < i && hasLI(updates[j].Cmd) && (forall k int :: j < k && k < i ==> !hasLI(updates[k].Cmd)) ==> ctx.leaderIndex != nil && *ctx.leaderIndex == liVal(updates[j].Cmd)
+
+// implementations of command.handle, each proved against the interface contract
+//@ func (commandDummy).handle
+//@   results ur, res, err
+//@   requires ctx != nil
+//@   ensures [C10.handle.rev] err == nil && res != nil && res.Revision == ctx.index && fresh(res)
+//@   modifies nothing
+
+//@ func (commandPut).handle
+//@   results ur, res, err
+//@   requires c.Command != nil && c.Command.Kv != nil
+//@   requires ctx != nil && ctx.batch != nil && ctx.db != nil && ctx.batch.bdb == ctx.db && ctx.batch != ctx.db
+//@   ensures [C10.handle.rev]  err == nil ==> res != nil && res.Revision == ctx.index && fresh(res)
+//@   ensures [C10.handle.resp] err == nil ==> len(res.Responses) == 1
+//@   ensures err == nil ==> ctx.batch != nil && ctx.batch.bdb == ctx.db && ctx.batch != ctx.db
+//@   ensures ctx.index == old(ctx.index) && ctx.leaderIndex == old(ctx.leaderIndex) && ctx.db == old(ctx.db)
+//@   ensures ctx.batch == old(ctx.batch) || fresh(ctx.batch)
+//@   ensures [C01.handle.book] err == nil ==> bookSame(ctx.batch.vP, ctx.batch.vV, old(ctx.batch.vP), old(ctx.batch.vV))
+//@   ensures [C01.cput.state] err == nil ==> forall k Bytes :: ctx.batch.vP[k] == (k == encK(1, bytesOf(c.Command.Kv.Key)) ? true : old(ctx.batch.vP[k]))
+//@   modifies ctx.batch, ctx.batch.vP, ctx.batch.vV
